@@ -517,6 +517,12 @@ def oracle_C07(r):
                                 f"{o['comp']} phase {o['phase']} (class ok: {o['class_ok']})"))
                 if o["cause"][0] not in ("exc", "conflict"):
                     bad.append(("C07:cause", f"the original exception is not the cause: {o['cause']}"))
+                # the component's own Fail code: what it raised -- also an exception group with a single member
+                # (code 9), which is the original exception, not its member (99)
+                codes = [a[1] for ph in ("prep", "start") for sg in prog[f][ph] for a in sg if a[0] == "Fail"]
+                if o["cause"][0] == "exc" and codes and o["cause"][1] not in codes:
+                    bad.append(("C07:cause", f"component {f} raised the exception with code {codes}; the cause of the "
+                                f"ComponentStartError is the one with code {o['cause'][1]}"))
         for a in ancestors(prog, f):
             if any(x == ["SB", a] for _, x in log):
                 bad.append(("C07:ancestor-started", f"start() of ancestor {a} of the failed component {f} was run"))
